@@ -3,6 +3,7 @@
 package main
 
 import (
+	"crypto/tls"
 	"sync/atomic"
 	"crypto/hmac"
 	"crypto/sha256"
@@ -439,6 +440,9 @@ func (e *testEnv) buildRequest(rs reqSpec) (*http.Request, error) {
 	req.URL.Scheme = ""
 	req.URL.Host = ""
 	req.Host = host
+	if rs.TLS {
+		req.TLS = &tls.ConnectionState{HandshakeComplete: true}
+	}
 	for k, vs := range rs.Header {
 		for _, v := range vs {
 			req.Header.Add(k, v)
